@@ -102,6 +102,7 @@ func initC18() {
 			{name: "openum", enum: true, runs: func(tier string) int64 { return 0 }},
 			{name: "stopenum", enum: true, runs: func(tier string) int64 { return 0 }},
 			{name: "stopenum2", enum: true, runs: func(tier string) int64 { return 0 }},
+			{name: "reqpair", enum: true, runs: func(tier string) int64 { return 0 }},
 		},
 	}
 }
